@@ -181,4 +181,52 @@ theorem foldl_wadd (bits : ℕ) (l : List ℕ) (acc : ℕ) :
     simp only [List.foldl_cons, List.sum_cons]
     rw [ih, wadd, Nat.mod_add_mod, Nat.add_assoc]
 
+theorem val_zero_of_not_any (xs : List ℕ) (h : xs.any (· != 0) = false) : val xs = 0 := by
+  induction xs with
+  | nil => rfl
+  | cons y ys ih =>
+    simp only [List.any_cons, Bool.or_eq_false_iff, bne_eq_false_iff_eq] at h
+    rw [val_cons, h.1, ih h.2]; simp
+
+theorem val_pos_of_any (xs : List ℕ) (h : xs.any (· != 0) = true) : 0 < val xs := by
+  induction xs with
+  | nil => simp at h
+  | cons y ys ih =>
+    simp only [List.any_cons, Bool.or_eq_true, bne_iff_ne, ne_eq] at h
+    rw [val_cons]
+    rcases h with h | h
+    · omega
+    · have := ih h
+      have : 0 < W * val ys := Nat.mul_pos W_pos this
+      omega
+
+/-- shifting by a `Uint` amount is shifting by its value (`bits < 2^64`, as on every real target). -/
+theorem shiftUint_eq (bits a : ℕ) (rhs : List ℕ) (hb : bits < 2 ^ 64) (ha : a < 2 ^ bits) :
+    shlUint bits a rhs = wshl bits a (val rhs) ∧ shrUint bits a rhs = wshr bits a (val rhs) := by
+  unfold shlUint shrUint
+  by_cases h0 : bits = 0
+  · subst h0
+    have : a = 0 := by simpa using ha
+    subst this
+    simp [wshl, wshr]
+  · rw [if_neg h0, if_neg h0]
+    cases rhs with
+    | nil => simp
+    | cons x xs =>
+      rw [val_cons]
+      change (if xs.any (· != 0) = true then 0 else wshl bits a x) = wshl bits a (x + W * val xs)
+        ∧ (if xs.any (· != 0) = true then 0 else wshr bits a x) = wshr bits a (x + W * val xs)
+      by_cases ht : xs.any (· != 0) = true
+      · rw [if_pos ht, if_pos ht]
+        have hp := val_pos_of_any xs ht
+        have hW : W = 2 ^ 64 := rfl
+        have : bits ≤ x + W * val xs := by
+          have : W * 1 ≤ W * val xs := Nat.mul_le_mul_left _ hp
+          omega
+        simp [wshl, wshr, this]
+      · rw [if_neg ht, if_neg ht]
+        have : val xs = 0 := val_zero_of_not_any xs (by simpa using ht)
+        rw [this, Nat.mul_zero, Nat.add_zero]
+        exact ⟨rfl, rfl⟩
+
 end Ruint.Facade
